@@ -155,7 +155,8 @@ fn main() {
         check(&s, "stream", &mut evaluations);
         i += nshards;
     }
-    // 2. oversize OSC shapes: payload 1000..=1100 bytes, 0..=20 separators, followed by text and a CSI
+    // 2. oversize OSC shapes: payload 1000..=1100 bytes, 0..=20 separators (some of them beyond the 1024-byte cap),
+    //    every way of ending the string (BEL, ST, CAN, SUB), followed by text and a CSI
     let mut k = 0u64;
     for len in 1000..=1100usize {
         for seps in 0..=20usize {
@@ -164,26 +165,81 @@ fn main() {
                 continue;
             }
             let mut rng = Rng::new(seed, 0xC20_8000_0000 + k);
-            let mut payload: Vec<u8> = (0..len).map(|_| rng.range(0x20, 0x7e) as u8).map(|b| if b == b';' { b'x' } else { b }).collect();
-            // place the separators: spread over the payload, some of them beyond the 1024-byte cap
-            for j in 0..seps {
-                let pos = (j * 53 + rng.below(40) as usize) % (len + 1);
-                payload.insert(pos.min(payload.len()), b';');
+            let payload: Vec<u8> = (0..len).map(|_| rng.range(0x20, 0x7e) as u8).map(|b| if b == b';' { b'x' } else { b }).collect();
+            // separator positions (in payload-byte coordinates): `after` of them behind the cap when the payload is that long
+            let after = if len > 1030 { seps % 4 } else { 0 };
+            let before = seps - after.min(seps);
+            let mut cuts: Vec<usize> = vec![];
+            for j in 0..before {
+                cuts.push((j * 47 + rng.below(40) as usize) % 1000);
+            }
+            for j in 0..after.min(seps) {
+                cuts.push(1025 + (j * 17 + rng.below(10) as usize) % (len - 1025));
+            }
+            cuts.sort();
+            let mut body = Vec::with_capacity(len + seps);
+            let mut ci = 0;
+            for (pos, b) in payload.iter().enumerate() {
+                while ci < cuts.len() && cuts[ci] == pos {
+                    body.push(b';');
+                    ci += 1;
+                }
+                body.push(*b);
             }
             let mut s = b"A\x1b]".to_vec();
-            s.extend_from_slice(&payload);
-            s.extend_from_slice(if (len + seps) % 2 == 0 { b"\x07" } else { b"\x1b\\" });
-            s.extend_from_slice(b"B\x1b[1;2mC\x1b]0;t\x07D");
+            s.extend_from_slice(&body);
+            s.extend_from_slice(match (len + seps) % 4 {
+                0 => &b"\x07"[..],
+                1 => b"\x1b\\",
+                2 => b"\x18",
+                _ => b"\x1a",
+            });
+            s.extend_from_slice(b"B\x1b[1;2mC\x07\x1b]0;t\x07D");
             distinct.insert(hash64(&s));
             if len == 1050 && seps == 3 {
                 let mut o = J::obj();
                 o.set("origin", J::s("oversize OSC shape"));
                 o.set("payload_len", J::UInt(len as u64));
                 o.set("separators", J::UInt(seps as u64));
+                o.set("separators_behind_the_cap", J::UInt(after as u64));
                 samples.push(o);
             }
             check(&s, "oversize-osc", &mut evaluations);
         }
+    }
+    // 3. long OSC strings with random content: payload 900..1200 bytes incl. C0 controls (ignored), DEL, separators
+    //    anywhere, any terminator (or none), followed by a short random stream
+    let nlong = nstreams / 15 + 20;
+    let mut i = shard;
+    while i < nlong {
+        let mut rng = Rng::new(seed, 0xC20_C000_0000 + i);
+        let len = rng.range(900, 1200) as usize;
+        let mut s = if rng.chance(1, 2) { b"pre".to_vec() } else { vec![] };
+        s.extend_from_slice(b"\x1b]");
+        for _ in 0..len {
+            let b = match rng.below(40) {
+                0 => b';',
+                1 => 0x7f,
+                2 => rng.below(0x18) as u8,
+                3 => *rng.pick(&[0x19u8, 0x1c, 0x1f]),
+                _ => rng.range(0x20, 0x7e) as u8,
+            };
+            s.push(if b == 0x07 { b'.' } else { b });
+        }
+        match rng.below(6) {
+            0 => s.push(0x07),
+            1 => s.extend_from_slice(b"\x1b\\"),
+            2 => s.push(0x18),
+            3 => s.push(0x1a),
+            4 => s.extend_from_slice(b"\x1b[31m"),
+            _ => {}
+        }
+        s.extend_from_slice(b"tail\x07");
+        let t = gen::gen_stream_7bit(&mut rng, 60);
+        s.extend_from_slice(&t);
+        distinct.insert(hash64(&s));
+        check(&s, "long-osc", &mut evaluations);
+        i += nshards;
     }
     drop(check);
     let mut o = J::obj();
